@@ -905,10 +905,22 @@ class _ArithExpr:
     raise TranslationError(f"expression {type(n).__name__}: {ast.unparse(n)[:60]}")
 
 
+SPE_SPECS = [
+  ("spe_ratio", "libsigopt/compute/sigopt_parzen_estimator.py", "SigOptParzenEstimator", "evaluate_expected_improvement", ("return_elt", 2),
+   ["lpdf = self.evaluate_lower_density(points_to_sample)", "gpdf = self.evaluate_greater_density(points_to_sample)"]),
+]
+
+
 def generate_acq(repo, gen_dir):
+  status = _generate_exprs(repo, gen_dir, ACQ_SPECS, "Acq", "pyfun_acq", "acquisition formulas")
+  status.update(_generate_exprs(repo, gen_dir, SPE_SPECS, "Spe", "pyfun_spe", "Parzen-estimator formulas"))
+  return status
+
+
+def _generate_exprs(repo, gen_dir, specs, fname, prefix, what_text):
   status = {}
   out = [
-    "/- GENERATED by harness/pyfun.py from the current libsigopt source (acquisition formulas). Do not edit. -/",
+    f"/- GENERATED by harness/pyfun.py from the current libsigopt source ({what_text}). Do not edit. -/",
     "import Model.Arith",
     "set_option linter.unusedVariables false",
     "namespace Gen",
@@ -917,8 +929,8 @@ def generate_acq(repo, gen_dir):
   ]
   ok = True
   mods = {}
-  for lean_name, rel, cls_name, meth, what, guard in ACQ_SPECS:
-    key = f"pyfun_acq:{lean_name}"
+  for lean_name, rel, cls_name, meth, what, guard in specs:
+    key = f"{prefix}:{lean_name}"
     try:
       path = os.path.join(repo, rel)
       if path not in mods:
@@ -951,6 +963,10 @@ def generate_acq(repo, gen_dir):
         if len(rets) != 1 or rets[0].value is None:
           raise TranslationError(f"{meth} does not have exactly one return")
         node = rets[0].value
+        if what[0] == "return_elt":
+          if not isinstance(node, ast.Tuple) or len(node.elts) <= what[1]:
+            raise TranslationError(f"{meth} does not return a tuple with an element {what[1]}")
+          node = node.elts[what[1]]
       tr = _ArithExpr(src, consts)
       body = tr.expr(node)
       params = sorted(tr.params)
@@ -962,6 +978,6 @@ def generate_acq(repo, gen_dir):
       ok = False
       status[key] = f"error: {e}"
   out.append("end Gen")
-  ch = write_if_changed(os.path.join(gen_dir, "Acq.lean"), "\n".join(out) + "\n")
-  status["Acq"] = ("changed" if ch else "same") if ok else "error: an acquisition formula left the translatable subset"
+  ch = write_if_changed(os.path.join(gen_dir, fname + ".lean"), "\n".join(out) + "\n")
+  status[fname] = ("changed" if ch else "same") if ok else "error: a formula left the translatable subset"
   return status
